@@ -1,19 +1,25 @@
 //! C03 — filter chains and error fan-out: scripted `Filter`s and `Append`s that write every call into
-//! one shared event log, the real `ThresholdFilter`, `Logger::new_with_err_handler`.
-//! case: nodeLevel TAB recordLevel TAB attached TAB appenders [TAB path]   (see lean/Driver/C03.lean)
+//! one shared event log, the real `ThresholdFilter`, configured and default error handlers,
+//! `Handle::set_config`, named loggers, five construction paths.
+//! case (fields 5–8 optional): rootLevel TAB recordLevel TAB attached TAB appenders [TAB path [TAB history
+//! [TAB loggers [TAB target]]]]   — see lean/Driver/C03.lean for the grammar.
 //! Filters: A N R = scripted answers; T<k> = the real `ThresholdFilter` inside a wrapper that records
 //! the consultation; t<k> = the real `ThresholdFilter` object itself, bare (its consultation is not
-//! observable). path: `builder` (default) = `Appender::builder()`; `config-yaml` = the same chain
-//! rendered as a YAML file under $VERIF_SCRATCH and loaded with `load_config_file`; `config-json` =
-//! rendered as JSON, parsed into `RawConfig`, then `appenders_lossy` + `Config::builder()…build_lossy`
-//! exactly as `config::file::deserialize` does. The scripted kinds are registered in `Deserializers`.
+//! observable); B = an entry that does not deserialize, `!` = `filters:` is not a sequence (both on
+//! configuration paths only). Results: ok | fail | p<bits> (per call) | panic.
+//! Paths: `builder` = `Appender::builder().filter(..)`; `builder-many` = first filter through `.filter`,
+//! the others through one `.filters(iter)`; `config-yaml` / `config-toml` = the case rendered as a file
+//! under $VERIF_SCRATCH and loaded with `load_config_file`; `config-json` = rendered as JSON, parsed
+//! into `RawConfig`, then `appenders_lossy` + `Config::builder()…build_lossy` exactly as
+//! `config::file::deserialize` does. The scripted kinds are registered in `Deserializers`.
 use crate::proto::*;
 use crate::rng::Rng;
 use log::{Level, LevelFilter, Log, Record};
 use log4rs::append::Append;
-use log4rs::config::{load_config_file, Appender, Config, Deserialize, Deserializers, RawConfig, Root};
+use log4rs::config::{load_config_file, Appender, Config, Deserialize, Deserializers, Logger as LoggerCfg, RawConfig, Root};
 use log4rs::filter::threshold::ThresholdFilter;
 use log4rs::filter::{Filter, Response};
+use std::sync::atomic::{AtomicUsize, Ordering};
 use std::sync::{Arc, Mutex};
 
 type EventLog = Arc<Mutex<Vec<String>>>;
@@ -25,6 +31,7 @@ enum Script {
     Reject,
     Threshold(u64),
     Bare(u64),
+    Bad,
 }
 
 #[derive(Debug)]
@@ -42,7 +49,7 @@ impl Filter for ScriptedFilter {
             Script::Accept => Response::Accept,
             Script::Neutral => Response::Neutral,
             Script::Reject => Response::Reject,
-            Script::Threshold(_) | Script::Bare(_) => unreachable!(),
+            _ => unreachable!(),
         }
     }
 }
@@ -63,17 +70,64 @@ impl Filter for CountingThreshold {
     }
 }
 
+/// what the scripted appender's `append` does on its k-th call
+#[derive(Clone, Debug, PartialEq)]
+enum Res {
+    Ok,
+    Fail,
+    Pattern(Vec<bool>),
+    Panic,
+}
+
+impl Res {
+    fn word(&self) -> String {
+        match self {
+            Res::Ok => "ok".to_owned(),
+            Res::Fail => "fail".to_owned(),
+            Res::Panic => "panic".to_owned(),
+            Res::Pattern(b) => format!("p{}", b.iter().map(|x| if *x { '1' } else { '0' }).collect::<String>()),
+        }
+    }
+    fn parse(s: &str) -> Option<Res> {
+        Some(match s {
+            "ok" => Res::Ok,
+            "fail" => Res::Fail,
+            "panic" => Res::Panic,
+            _ => {
+                let bits = s.strip_prefix('p')?;
+                Res::Pattern(
+                    bits.chars()
+                        .map(|c| match c {
+                            '1' => Some(true),
+                            '0' => Some(false),
+                            _ => None,
+                        })
+                        .collect::<Option<_>>()?,
+                )
+            }
+        })
+    }
+}
+
 #[derive(Debug)]
 struct ScriptedAppend {
     app: usize,
-    fails: bool,
+    res: Res,
+    calls: AtomicUsize,
     log: EventLog,
 }
 
 impl Append for ScriptedAppend {
     fn append(&self, _: &Record) -> anyhow::Result<()> {
+        let k = self.calls.fetch_add(1, Ordering::SeqCst);
         self.log.lock().unwrap().push(format!("a{}", self.app));
-        if self.fails {
+        let fails = match &self.res {
+            Res::Ok => false,
+            Res::Fail => true,
+            Res::Pattern(b) => b.get(k).copied().unwrap_or(false),
+            Res::Panic => panic!("scripted appender {} panics", self.app),
+        };
+        if fails {
             Err(anyhow::anyhow!("fail:{}", self.app))
         } else {
             Ok(())
@@ -110,6 +164,7 @@ fn dec_filter(s: &str) -> Option<Script> {
         "A" => Script::Accept,
         "N" => Script::Neutral,
         "R" => Script::Reject,
+        "B" => Script::Bad,
         _ => {
             if let Some(k) = s.strip_prefix('T') {
                 let k: u64 = k.parse().ok()?;
@@ -127,8 +182,40 @@ fn dec_filter(s: &str) -> Option<Script> {
 #[derive(Clone, Copy, PartialEq)]
 enum Path {
     Builder,
+    BuilderMany,
     ConfigYaml,
     ConfigJson,
+    ConfigToml,
+}
+
+impl Path {
+    fn is_config(self) -> bool {
+        !matches!(self, Path::Builder | Path::BuilderMany)
+    }
+}
+
+/// one declared appender; `chain == None`: `filters:` is not a sequence
+struct Decl {
+    chain: Option<Vec<Script>>,
+    res: Res,
+}
+
+struct LoggerIn {
+    name: String,
+    level: u64,
+    additive: bool,
+    att: Vec<usize>,
+}
+
+struct Case {
+    root_level: u64,
+    rec_level: Level,
+    attached: Vec<usize>,
+    table: Vec<Decl>,
+    path: Path,
+    hist: Hist,
+    loggers: Vec<LoggerIn>,
+    target: String,
 }
 
 fn boxed_filter(app: usize, idx: usize, f: Script, log: &EventLog) -> Box<dyn Filter> {
@@ -144,17 +231,38 @@ fn boxed_filter(app: usize, idx: usize, f: Script, log: &EventLog) -> Box<dyn Fi
     }
 }
 
-/// path `builder`: the chain is attached filter by filter through `Appender::builder()`
-fn config_via_builder(table: &[(Vec<Script>, bool)], attached: &[usize], node_level: LevelFilter, ev: &EventLog) -> Config {
+/// paths `builder` / `builder-many`: the chain is attached through `Appender::builder()`
+fn config_via_builder(c: &Case, ev: &EventLog) -> Config {
     let mut b = Config::builder();
-    for (i, (chain, fails)) in table.iter().enumerate() {
+    for (i, d) in c.table.iter().enumerate() {
+        let chain = d.chain.clone().unwrap_or_default();
         let mut ab = Appender::builder();
-        for (j, f) in chain.iter().enumerate() {
-            ab = ab.filter(boxed_filter(i, j, *f, ev));
+        if c.path == Path::BuilderMany {
+            let mut it = chain.iter().enumerate();
+            if let Some((j, f)) = it.next() {
+                ab = ab.filter(boxed_filter(i, j, *f, ev));
+            }
+            let rest: Vec<Box<dyn Filter>> = it.map(|(j, f)| boxed_filter(i, j, *f, ev)).collect();
+            ab = ab.filters(rest);
+        } else {
+            for (j, f) in chain.iter().enumerate() {
+                ab = ab.filter(boxed_filter(i, j, *f, ev));
+            }
         }
-        b = b.appender(ab.build(i.to_string(), Box::new(ScriptedAppend { app: i, fails: *fails, log: ev.clone() })));
+        b = b.appender(ab.build(
+            i.to_string(),
+            Box::new(ScriptedAppend { app: i, res: d.res.clone(), calls: AtomicUsize::new(0), log: ev.clone() }),
+        ));
     }
-    let root = Root::builder().appenders(attached.iter().map(|i| i.to_string())).build(node_level);
+    for l in &c.loggers {
+        b = b.logger(
+            LoggerCfg::builder()
+                .additive(l.additive)
+                .appenders(l.att.iter().map(|i| i.to_string()))
+                .build(l.name.clone(), level_filter(l.level).unwrap()),
+        );
+    }
+    let root = Root::builder().appenders(c.attached.iter().map(|i| i.to_string())).build(level_filter(c.root_level).unwrap());
     b.build(root).expect("config of the case is well-formed")
 }
 
@@ -204,7 +312,7 @@ impl Deserialize for CountedThresholdDe {
 #[derive(serde::Deserialize)]
 struct ScriptedAppendCfg {
     app: usize,
-    fails: bool,
+    result: String,
 }
 
 struct ScriptedAppendDe(EventLog);
@@ -213,7 +321,8 @@ impl Deserialize for ScriptedAppendDe {
     type Trait = dyn Append;
     type Config = ScriptedAppendCfg;
     fn deserialize(&self, c: ScriptedAppendCfg, _: &Deserializers) -> anyhow::Result<Box<dyn Append>> {
-        Ok(Box::new(ScriptedAppend { app: c.app, fails: c.fails, log: self.0.clone() }))
+        let res = Res::parse(&c.result).ok_or_else(|| anyhow::anyhow!("result"))?;
+        Ok(Box::new(ScriptedAppend { app: c.app, res, calls: AtomicUsize::new(0), log: self.0.clone() }))
     }
 }
 
@@ -222,36 +331,57 @@ fn level_word(k: u64) -> &'static str {
 }
 
 /// the case as a configuration document; every chain in declaration order
-fn document(table: &[(Vec<Script>, bool)], attached: &[usize], node_level: u64) -> serde_json::Value {
+fn document(c: &Case) -> serde_json::Value {
     use serde_json::json;
     let mut appenders = serde_json::Map::new();
-    for (i, (chain, fails)) in table.iter().enumerate() {
-        let filters: Vec<serde_json::Value> = chain
-            .iter()
-            .enumerate()
-            .map(|(j, f)| match f {
-                Script::Accept => json!({"kind": "scripted", "app": i, "idx": j, "answer": "A"}),
-                Script::Neutral => json!({"kind": "scripted", "app": i, "idx": j, "answer": "N"}),
-                Script::Reject => json!({"kind": "scripted", "app": i, "idx": j, "answer": "R"}),
-                Script::Threshold(k) => json!({"kind": "counted_threshold", "app": i, "idx": j, "level": k}),
-                // the shipped kind, resolved by the default deserializer map
-                Script::Bare(k) => json!({"kind": "threshold", "level": level_word(*k)}),
-            })
-            .collect();
+    for (i, d) in c.table.iter().enumerate() {
         let mut entry = serde_json::Map::new();
         entry.insert("kind".to_owned(), json!("scripted_append"));
         entry.insert("app".to_owned(), json!(i));
-        entry.insert("fails".to_owned(), json!(fails));
-        // an appender without filters is declared without the key now and then
-        if !(filters.is_empty() && i % 2 == 0) {
-            entry.insert("filters".to_owned(), serde_json::Value::Array(filters));
+        entry.insert("result".to_owned(), json!(d.res.word()));
+        match &d.chain {
+            // `filters` present but not a sequence
+            None => {
+                entry.insert("filters".to_owned(), json!(3));
+            }
+            Some(chain) => {
+                let filters: Vec<serde_json::Value> = chain
+                    .iter()
+                    .enumerate()
+                    .map(|(j, f)| match f {
+                        Script::Accept => json!({"kind": "scripted", "app": i, "idx": j, "answer": "A"}),
+                        Script::Neutral => json!({"kind": "scripted", "app": i, "idx": j, "answer": "N"}),
+                        Script::Reject => json!({"kind": "scripted", "app": i, "idx": j, "answer": "R"}),
+                        Script::Threshold(k) => json!({"kind": "counted_threshold", "app": i, "idx": j, "level": k}),
+                        // the shipped kind, resolved by the default deserializer map
+                        Script::Bare(k) => json!({"kind": "threshold", "level": level_word(*k)}),
+                        // four ways of not deserializing
+                        Script::Bad => match (i + j) % 4 {
+                            0 => json!({"app": i, "idx": j, "answer": "A"}),
+                            1 => json!({"kind": "no_such_kind", "level": "error"}),
+                            2 => json!({"kind": "scripted", "app": i, "idx": j, "answer": "X"}),
+                            _ => json!({"kind": "threshold", "level": "loud"}),
+                        },
+                    })
+                    .collect();
+                // an appender without filters is declared without the key
+                if !filters.is_empty() {
+                    entry.insert("filters".to_owned(), serde_json::Value::Array(filters));
+                }
+            }
         }
         appenders.insert(i.to_string(), serde_json::Value::Object(entry));
     }
-    let names: Vec<String> = attached.iter().map(|i| i.to_string()).collect();
+    let names: Vec<String> = c.attached.iter().map(|i| i.to_string()).collect();
+    let mut loggers = serde_json::Map::new();
+    for l in &c.loggers {
+        let att: Vec<String> = l.att.iter().map(|i| i.to_string()).collect();
+        loggers.insert(l.name.clone(), json!({"level": level_word(l.level), "additive": l.additive, "appenders": att}));
+    }
     json!({
         "appenders": appenders,
-        "root": { "level": level_word(node_level), "appenders": names },
+        "root": { "level": level_word(c.root_level), "appenders": names },
+        "loggers": loggers,
     })
 }
 
@@ -263,96 +393,242 @@ fn deserializers(ev: &EventLog) -> Deserializers {
     d
 }
 
-static FILE_NO: std::sync::atomic::AtomicUsize = std::sync::atomic::AtomicUsize::new(0);
+static FILE_NO: AtomicUsize = AtomicUsize::new(0);
 
-/// path `config-yaml`: a file on disk through the public `load_config_file`
-fn config_via_yaml_file(doc: &serde_json::Value, ev: &EventLog) -> Result<Config, String> {
+fn scratch_file(ext: &str) -> std::path::PathBuf {
     let dir = std::env::var("VERIF_SCRATCH").unwrap_or_else(|_| std::env::temp_dir().to_string_lossy().into_owned());
-    let n = FILE_NO.fetch_add(1, std::sync::atomic::Ordering::SeqCst);
-    let path = std::path::Path::new(&dir).join(format!("c03_{}_{}.yml", std::process::id(), n));
-    let text = serde_yaml::to_string(doc).map_err(|e| e.to_string())?;
-    std::fs::create_dir_all(&dir).map_err(|e| e.to_string())?;
+    let n = FILE_NO.fetch_add(1, Ordering::SeqCst);
+    let _ = std::fs::create_dir_all(&dir);
+    std::path::Path::new(&dir).join(format!("c03_{}_{}.{}", std::process::id(), n, ext))
+}
+
+/// paths `config-yaml` / `config-toml`: a file on disk through the public `load_config_file`.
+/// What the loader reports (it writes `log4rs: …` lines to stderr) is swallowed.
+fn config_via_file(doc: &serde_json::Value, toml: bool, noisy: bool, ev: &EventLog) -> Result<Config, String> {
+    let (text, ext) = if toml {
+        let v = toml::Value::try_from(doc).map_err(|e| e.to_string())?;
+        (toml::to_string(&v).map_err(|e| e.to_string())?, "toml")
+    } else {
+        (serde_yaml::to_string(doc).map_err(|e| e.to_string())?, "yml")
+    };
+    let path = scratch_file(ext);
     std::fs::write(&path, text).map_err(|e| e.to_string())?;
-    let r = load_config_file(&path, deserializers(ev)).map_err(|e| e.to_string());
+    let mut r = Err("not run".to_owned());
+    if noisy {
+        let _ = capture_stderr(|| {
+            r = load_config_file(&path, deserializers(ev)).map_err(|e| e.to_string());
+        });
+    } else {
+        r = load_config_file(&path, deserializers(ev)).map_err(|e| e.to_string());
+    }
     let _ = std::fs::remove_file(&path);
     r
 }
 
-/// path `config-json`: `RawConfig` in memory, then the steps of `config::file::deserialize`
-fn config_via_raw_json(doc: &serde_json::Value, ev: &EventLog) -> Result<Config, String> {
+/// path `config-json`: `RawConfig` in memory, then the steps of `config::file::deserialize`;
+/// also the number of errors `appenders_lossy` reports
+fn config_via_raw_json(doc: &serde_json::Value, ev: &EventLog) -> Result<(Config, usize), String> {
     let text = serde_json::to_string(doc).map_err(|e| e.to_string())?;
     let raw: RawConfig = serde_json::from_str(&text).map_err(|e| e.to_string())?;
     let (appenders, errors) = raw.appenders_lossy(&deserializers(ev));
-    if !errors.is_empty() {
-        return Err(format!("{:?}", errors));
+    // `AppenderErrors` exposes no length; its Debug output lists one entry per error
+    let dbg = format!("{:?}", errors);
+    let n_err = dbg.matches("Filter(").count() + dbg.matches("Appender(").count();
+    let (config, _stripped) = Config::builder().appenders(appenders).loggers(raw.loggers()).build_lossy(raw.root());
+    Ok((config, n_err))
+}
+
+/// Runs `f` with file descriptor 2 pointing at a scratch file and returns what was written to it.
+/// (The default error handler of `SharedLogger::new` writes `log4rs: <error>` lines to stderr.)
+fn capture_stderr(f: impl FnOnce()) -> String {
+    use std::os::unix::io::AsRawFd;
+    let path = scratch_file("stderr");
+    let file = match std::fs::OpenOptions::new().create(true).write(true).truncate(true).open(&path) {
+        Ok(f) => f,
+        Err(_) => {
+            f();
+            return "CAPTURE-FAILED".to_owned();
+        }
+    };
+    let saved = unsafe { libc::dup(2) };
+    unsafe { libc::dup2(file.as_raw_fd(), 2) };
+    let r = std::panic::catch_unwind(std::panic::AssertUnwindSafe(f));
+    unsafe {
+        libc::dup2(saved, 2);
+        libc::close(saved);
     }
-    let (config, errors) = Config::builder().appenders(appenders).loggers(raw.loggers()).build_lossy(raw.root());
-    if !errors.is_empty() {
-        return Err(format!("{:?}", errors));
+    drop(file);
+    let text = std::fs::read_to_string(&path).unwrap_or_default();
+    let _ = std::fs::remove_file(&path);
+    if let Err(e) = r {
+        std::panic::resume_unwind(e);
     }
-    Ok(config)
+    text
+}
+
+/// which error handler the logger is created with, and how many times it is reconfigured
+/// (`Handle::set_config` with a freshly constructed, equal configuration) before the record is logged
+#[derive(Clone, Copy)]
+struct Hist {
+    configured: bool,
+    reconfs: usize,
+}
+
+fn dec_hist(s: Option<&str>) -> Option<Hist> {
+    let s = match s {
+        None => return Some(Hist { configured: true, reconfs: 0 }),
+        Some(s) => s,
+    };
+    let mut cs = s.chars();
+    let configured = match cs.next()? {
+        'c' => true,
+        'd' => false,
+        _ => return None,
+    };
+    let reconfs: usize = cs.as_str().parse().ok()?;
+    Some(Hist { configured, reconfs })
+}
+
+fn decode(fields: &[&str]) -> Option<Case> {
+    if fields.len() < 4 || fields.len() > 8 {
+        return None;
+    }
+    let root_level: u64 = fields[0].parse().ok()?;
+    level_filter(root_level)?;
+    let rec_level = level(fields[1].parse().ok()?)?;
+    let attached: Vec<usize> = dec_list(',', fields[2]).iter().map(|x| x.parse().ok()).collect::<Option<_>>()?;
+    let mut table: Vec<Decl> = vec![];
+    for a in dec_list(',', fields[3]) {
+        let p: Vec<&str> = a.split(';').collect();
+        if p.len() != 2 {
+            return None;
+        }
+        let chain = if p[0] == "!" {
+            None
+        } else {
+            Some(dec_list('|', p[0]).iter().map(|f| dec_filter(f)).collect::<Option<Vec<Script>>>()?)
+        };
+        table.push(Decl { chain, res: Res::parse(p[1])? });
+    }
+    let path = match fields.get(4).copied() {
+        None | Some("builder") => Path::Builder,
+        Some("builder-many") => Path::BuilderMany,
+        Some("config-yaml") => Path::ConfigYaml,
+        Some("config-json") => Path::ConfigJson,
+        Some("config-toml") => Path::ConfigToml,
+        _ => return None,
+    };
+    let hist = dec_hist(fields.get(5).copied())?;
+    let mut loggers = vec![];
+    for l in dec_list(',', fields.get(6).copied().unwrap_or("~")) {
+        let p: Vec<&str> = l.split(';').collect();
+        if p.len() != 4 {
+            return None;
+        }
+        let lv: u64 = p[1].parse().ok()?;
+        level_filter(lv)?;
+        loggers.push(LoggerIn {
+            name: dec_str(p[0])?,
+            level: lv,
+            additive: match p[2] {
+                "1" => true,
+                "0" => false,
+                _ => return None,
+            },
+            att: dec_list('|', p[3]).iter().map(|x| x.parse().ok()).collect::<Option<_>>()?,
+        });
+    }
+    let target = match fields.get(7) {
+        None => "some::target".to_owned(),
+        Some(t) => dec_str(t)?,
+    };
+    let n = table.len();
+    if attached.iter().any(|i| *i >= n) || loggers.iter().any(|l| l.att.iter().any(|i| *i >= n)) {
+        return None;
+    }
+    let has_bad = table.iter().any(|d| d.chain.as_ref().map_or(true, |c| c.contains(&Script::Bad)));
+    if has_bad && !path.is_config() {
+        return None;
+    }
+    Some(Case { root_level, rec_level, attached, table, path, hist, loggers, target })
 }
 
 pub fn exec(fields: &[&str]) -> String {
-    if fields.len() != 4 && fields.len() != 5 {
-        return "bad-case".to_owned();
-    }
-    let parsed = (|| {
-        let node_num: u64 = fields[0].parse().ok()?;
-        let node_level = level_filter(node_num)?;
-        let rec_level = level(fields[1].parse().ok()?)?;
-        let attached: Vec<usize> = dec_list(',', fields[2]).iter().map(|x| x.parse().ok()).collect::<Option<_>>()?;
-        let mut table: Vec<(Vec<Script>, bool)> = vec![];
-        for a in dec_list(',', fields[3]) {
-            let p: Vec<&str> = a.split(';').collect();
-            if p.len() != 2 {
-                return None;
-            }
-            let chain: Vec<Script> = dec_list('|', p[0]).iter().map(|f| dec_filter(f)).collect::<Option<_>>()?;
-            let fails = match p[1] {
-                "ok" => false,
-                "fail" => true,
-                _ => return None,
-            };
-            table.push((chain, fails));
-        }
-        if attached.iter().any(|i| *i >= table.len()) {
-            return None;
-        }
-        let path = match fields.get(4).copied() {
-            None | Some("builder") => Path::Builder,
-            Some("config-yaml") => Path::ConfigYaml,
-            Some("config-json") => Path::ConfigJson,
-            _ => return None,
-        };
-        Some((node_num, node_level, rec_level, attached, table, path))
-    })();
-    let (node_num, node_level, rec_level, attached, table, path) = match parsed {
-        Some(p) => p,
+    let case = match decode(fields) {
+        Some(c) => c,
         None => return "bad-case".to_owned(),
     };
     let events: EventLog = Arc::new(Mutex::new(vec![]));
     let ev = events.clone();
-    let r = guarded(std::panic::AssertUnwindSafe(move || -> Result<(), String> {
-        let config = match path {
-            Path::Builder => config_via_builder(&table, &attached, node_level, &ev),
-            Path::ConfigYaml => config_via_yaml_file(&document(&table, &attached, node_num), &ev)?,
-            Path::ConfigJson => config_via_raw_json(&document(&table, &attached, node_num), &ev)?,
+    let r = guarded(std::panic::AssertUnwindSafe(move || -> Result<(String, Option<usize>, bool), String> {
+        let c = &case;
+        let mut n_err: Option<usize> = None;
+        // a document with entries that do not deserialize makes the loader write to stderr
+        let noisy = c.table.iter().any(|d| d.chain.as_ref().map_or(true, |ch| ch.contains(&Script::Bad)));
+        // every call constructs the configuration afresh (new boxed objects, same event log)
+        let mut make = || -> Result<Config, String> {
+            Ok(match c.path {
+                Path::Builder | Path::BuilderMany => config_via_builder(c, &ev),
+                Path::ConfigYaml => config_via_file(&document(c), false, noisy, &ev)?,
+                Path::ConfigToml => config_via_file(&document(c), true, noisy, &ev)?,
+                Path::ConfigJson => {
+                    let (cfg, n) = config_via_raw_json(&document(c), &ev)?;
+                    n_err = Some(n);
+                    cfg
+                }
+            })
         };
-        let hlog = ev.clone();
-        let logger = log4rs::Logger::new_with_err_handler(
-            config,
-            Box::new(move |e: &anyhow::Error| {
-                let msg = e.to_string();
-                let who = msg.strip_prefix("fail:").unwrap_or("?").to_owned();
-                hlog.lock().unwrap().push(format!("h{}", who));
-            }),
-        );
-        logger.log(&Record::builder().level(rec_level).target("some::target").args(format_args!("m")).build());
-        Ok(())
+        let logger = if c.hist.configured {
+            let hlog = ev.clone();
+            log4rs::Logger::new_with_err_handler(
+                make()?,
+                Box::new(move |e: &anyhow::Error| {
+                    let msg = e.to_string();
+                    let who = msg.strip_prefix("fail:").unwrap_or("?").to_owned();
+                    hlog.lock().unwrap().push(format!("h{}", who));
+                }),
+            )
+        } else {
+            log4rs::Logger::new(make()?)
+        };
+        for _ in 0..c.hist.reconfs {
+            logger.verif_handle().set_config(make()?);
+        }
+        let unwound = std::cell::Cell::new(false);
+        let record_it = || {
+            let r = std::panic::catch_unwind(std::panic::AssertUnwindSafe(|| {
+                logger.log(&Record::builder().level(c.rec_level).target(&c.target).args(format_args!("m")).build());
+            }));
+            unwound.set(r.is_err());
+        };
+        // errors that reach the default handler appear on stderr as `log4rs: fail:<app>`
+        let stderr = if !c.hist.configured || c.hist.reconfs > 0 {
+            capture_stderr(record_it)
+        } else {
+            record_it();
+            String::new()
+        };
+        let unwound = unwound.get();
+        Ok((stderr, n_err, unwound))
     }));
     match r {
-        Ok(Ok(())) => enc_list(",", &events.lock().unwrap()),
+        Ok(Ok((stderr, n_err, unwound))) => {
+            let mut all = events.lock().unwrap().clone();
+            for line in stderr.lines() {
+                match line.strip_prefix("log4rs: fail:") {
+                    Some(who) => all.push(format!("d{}", who)),
+                    None => all.push("d?".to_owned()),
+                }
+            }
+            if unwound {
+                all.push("!".to_owned());
+            }
+            let mut s = enc_list(",", &all);
+            if let Some(n) = n_err {
+                s.push_str(&format!(" errs={}", n));
+            }
+            s
+        }
         Ok(Err(_)) => "CONFIG-ERROR".to_owned(),
         Err(_) => "PANIC".to_owned(),
     }
@@ -455,6 +731,12 @@ pub fn gen(rng: &mut Rng, n: usize, thorough: bool, emit: &mut dyn FnMut(String)
             for path in ["builder", "config-yaml", "config-json"] {
                 emit(format!("5\t{}\t0\t{};{}\t{}", lvl, chain_str(&cs), res, path));
             }
+            // `AppenderBuilder::filters(iter)` and TOML documents: all short chains, one level each in quick
+            if thorough || chain.len() <= 2 && lvl == 1 + (k as u64 % 5) {
+                for path in ["builder-many", "config-toml"] {
+                    emit(format!("5\t{}\t0\t{};{}\t{}", lvl, chain_str(&cs), res, path));
+                }
+            }
         }
     }
     // 6. the earlier exhaustive scripted chains (length ≤ 4) once more through the file path, with
@@ -462,10 +744,112 @@ pub fn gen(rng: &mut Rng, n: usize, thorough: bool, emit: &mut dyn FnMut(String)
     for c in all_chains(4).iter() {
         emit(format!("5\t3\t0,1,2\tT2|N;ok,{};fail,~;ok\tconfig-yaml", chain_str(c)));
     }
-    // 7. random: long chains, thresholds (counted and bare) mixed in, repeated and permuted
-    //    attachments, any construction path
+    // 7. handler identity across reconfiguration: created with a configured / the default handler,
+    //    0–2 × `Handle::set_config` with an equal configuration, failing and healthy appenders
+    for hist in ["c0", "c1", "c2", "d0", "d1", "d2"] {
+        for path in ["builder", "config-yaml", "config-json"] {
+            for (att, apps) in [
+                ("0,1", "N;fail,~;ok"),
+                ("0", "~;fail"),
+                ("0,1,0", "A|R;p01,R;fail"),
+                ("0,1,2", "~;ok,N|N;fail,t3;fail"),
+                ("0", "~;ok"),
+            ] {
+                for lvl in [1u64, 4] {
+                    emit(format!("5\t{}\t{}\t{}\t{}\t{}", lvl, att, apps, path, hist));
+                }
+            }
+        }
+    }
+    // 8. per-call results: the same appender attached up to 4 times, every result pattern of that length
+    for times in 1..=4usize {
+        for bits in 0..(1u32 << times) {
+            let pat: String = (0..times).map(|i| if bits >> i & 1 == 1 { '1' } else { '0' }).collect();
+            let att: Vec<String> = (0..times).map(|_| "0".to_owned()).collect();
+            emit(format!("5\t3\t{}\tN;p{}", att.join(","), pat));
+            // interleaved with a second appender, and behind a rejecting chain (never reached)
+            let att2: Vec<String> = (0..times).flat_map(|_| ["0".to_owned(), "1".to_owned()]).collect();
+            emit(format!("5\t3\t{}\tN;p{},A;p{}\tbuilder\td0", att2.join(","), pat, pat));
+            emit(format!("5\t3\t{}\tR;p{}", att.join(","), pat));
+        }
+    }
+    // 9. panicking appenders (outside the statement; compared with the model only)
+    for (att, apps) in [("0,1,2", "~;fail,~;panic,~;ok"), ("0", "R;panic"), ("0,1", "A;panic,N;fail"), ("1,0", "A;panic,N;fail")] {
+        for path in ["builder", "config-json"] {
+            emit(format!("5\t3\t{}\t{}\t{}", att, apps, path));
+        }
+    }
+    // 10. lossy configuration documents: every chain of length ≤ 3 over {A,N,R,t1,B} that contains an
+    //     entry that does not deserialize, through the three document paths; `filters:` not a sequence
+    let lossy: Vec<&str> = vec!["A", "N", "R", "t1", "B"];
+    let mut lossy_chains: Vec<Vec<&str>> = vec![];
+    for a in &lossy {
+        lossy_chains.push(vec![a]);
+        for b in &lossy {
+            lossy_chains.push(vec![a, b]);
+            for c in &lossy {
+                lossy_chains.push(vec![a, b, c]);
+            }
+        }
+    }
+    for (k, chain) in lossy_chains.iter().filter(|c| c.contains(&"B")).enumerate() {
+        let paths: &[&str] = if thorough { &["config-yaml", "config-json", "config-toml"] } else { &["config-json", ["config-yaml", "config-toml"][k % 2]] };
+        for path in paths {
+            emit(format!("5\t{}\t0,1\t{};fail,T3;ok\t{}", 2 + (k as u64 % 3), chain_str(chain), path));
+        }
+    }
+    for path in ["config-yaml", "config-json", "config-toml"] {
+        for lvl in [1u64, 4] {
+            emit(format!("5\t{}\t0,1,2\tN;fail,!;fail,~;ok\t{}", lvl, path));
+            emit(format!("5\t{}\t1\tN;fail,!;ok\t{}", lvl, path));
+            emit(format!("5\t{}\t0,1\tN;ok,!;fail\t{}\tc0\t{};5;1;1|0\t{}", lvl, path, enc_str("a"), enc_str("a::b")));
+        }
+    }
+    // 11. named loggers, small scope: up to two loggers from {a, a::b, a::b::c, b} (additive on/off,
+    //     levels 2/5) with filtered, failing appenders attached at every level of the chain, so that the
+    //     same appender is reached along an additive chain once, twice or three times; all probe targets
+    let appenders = "A|R;ok,N|R;fail,t2;p01,~;fail";
+    let names = ["a", "a::b", "a::b::c", "b"];
+    let targets = ["a", "a::b", "a::b::c", "a::x", "a::b::c::d", "b::y", "zz", ""];
+    let atts: [&str; 6] = ["~", "0", "1|0", "3|3", "2|1|0", "1"];
+    let mut specs: Vec<String> = vec![];
+    for (ni, n1) in names.iter().enumerate() {
+        for add1 in [true, false] {
+            for a1 in atts.iter() {
+                specs.push(format!("{};{};{};{}", enc_str(n1), 5, enc_bool(add1), a1));
+                for n2 in names.iter().skip(ni + 1) {
+                    for add2 in [true, false] {
+                        for a2 in [atts[1], atts[2], atts[4]] {
+                            specs.push(format!(
+                                "{};{};{};{},{};{};{};{}",
+                                enc_str(n1), 5, enc_bool(add1), a1, enc_str(n2), 2 + 3 * (add2 as u64), enc_bool(add2), a2
+                            ));
+                        }
+                    }
+                }
+            }
+        }
+    }
+    for (k, spec) in specs.iter().enumerate() {
+        let probe: Vec<&str> = if thorough { targets.to_vec() } else { vec![targets[k % targets.len()], targets[(k / 3 + 2) % targets.len()]] };
+        for t in probe {
+            let root_att = ["0,1", "3", "~", "1,1"][k % 4];
+            let path = if k % 7 == 0 { "config-yaml" } else if k % 7 == 1 { "config-json" } else { "builder" };
+            emit(format!("{}\t{}\t{}\t{}\t{}\tc0\t{}\t{}", 3 + (k as u64 % 3), 1 + (k as u64 % 5), root_att, appenders, path, spec, enc_str(t)));
+        }
+    }
+    // 12. random: long chains, thresholds (counted and bare) mixed in, repeated and permuted
+    //     attachments, per-call results, named loggers, any construction path and history
     for _ in 0..n {
         let n_apps = rng.range(1, if thorough { 8 } else { 6 }) as usize;
+        let path = match rng.below(10) {
+            0..=3 => "builder",
+            4 => "builder-many",
+            5..=6 => "config-yaml",
+            7..=8 => "config-json",
+            _ => "config-toml",
+        };
+        let is_config = path.starts_with("config");
         let mut apps = vec![];
         for _ in 0..n_apps {
             let len = match rng.below(10) {
@@ -475,9 +859,12 @@ pub fn gen(rng: &mut Rng, n: usize, thorough: bool, emit: &mut dyn FnMut(String)
                 _ => rng.range(21, 40),
             };
             let neutral_bias = rng.range(1, 9);
+            let bad_bias = if is_config && rng.chance(1, 3) { 8 } else { 0 };
             let chain: Vec<String> = (0..len)
                 .map(|_| {
-                    if rng.below(10) < neutral_bias {
+                    if bad_bias > 0 && rng.below(bad_bias) == 0 {
+                        "B".to_owned()
+                    } else if rng.below(10) < neutral_bias {
                         if rng.chance(1, 4) {
                             format!("{}{}", if rng.chance(1, 2) { "T" } else { "t" }, rng.range(0, 5))
                         } else {
@@ -493,27 +880,68 @@ pub fn gen(rng: &mut Rng, n: usize, thorough: bool, emit: &mut dyn FnMut(String)
                 })
                 .collect();
             let cs: Vec<&str> = chain.iter().map(|s| s.as_str()).collect();
-            apps.push(format!("{};{}", chain_str(&cs), if rng.chance(2, 5) { "fail" } else { "ok" }));
+            let res = match rng.below(20) {
+                0..=9 => "ok".to_owned(),
+                10..=15 => "fail".to_owned(),
+                16..=18 => {
+                    let k = rng.range(1, 5);
+                    format!("p{}", (0..k).map(|_| if rng.chance(1, 2) { '1' } else { '0' }).collect::<String>())
+                }
+                _ => if rng.chance(1, 3) { "panic".to_owned() } else { "fail".to_owned() },
+            };
+            let whole = if is_config && rng.chance(1, 25) { "!".to_owned() } else { chain_str(&cs) };
+            apps.push(format!("{};{}", whole, res));
         }
-        let attached: Vec<String> = match rng.below(4) {
-            0 => (0..n_apps).map(|i| i.to_string()).collect(),
-            1 => {
-                let mut v: Vec<usize> = (0..n_apps).collect();
-                rng.shuffle(&mut v);
-                v.iter().map(|i| i.to_string()).collect()
-            }
-            _ => {
-                let k = rng.range(0, n_apps as u64 + 2);
-                (0..k).map(|_| rng.below(n_apps as u64).to_string()).collect()
+        let pick_att = |rng: &mut Rng| -> Vec<String> {
+            match rng.below(4) {
+                0 => (0..n_apps).map(|i| i.to_string()).collect(),
+                1 => {
+                    let mut v: Vec<usize> = (0..n_apps).collect();
+                    rng.shuffle(&mut v);
+                    v.iter().map(|i| i.to_string()).collect()
+                }
+                _ => {
+                    let k = rng.range(0, n_apps as u64 + 2);
+                    (0..k).map(|_| rng.below(n_apps as u64).to_string()).collect()
+                }
             }
         };
+        let attached = pick_att(rng);
         let nl = if rng.chance(4, 5) { 5 } else { rng.range(0, 5) };
-        let path = match rng.below(4) {
-            0..=1 => "builder",
-            2 => "config-yaml",
-            _ => "config-json",
+        let hist = match rng.below(12) {
+            0 => "c1",
+            1 => "c2",
+            2 => "d0",
+            3 => "d1",
+            _ => "c0",
         };
-        emit(format!("{}\t{}\t{}\t{}\t{}", nl, rng.range(1, 5), enc_list(",", &attached), apps.join(","), path));
+        let (loggers, target) = if rng.chance(1, 3) {
+            let mut pool = vec!["a", "a::b", "a::b::c", "b", "b::a", "é::ü"];
+            rng.shuffle(&mut pool);
+            let k = rng.range(1, 3) as usize;
+            let ls: Vec<String> = pool[..k]
+                .iter()
+                .map(|nm| {
+                    let att: Vec<String> = pick_att(rng).into_iter().take(3).collect();
+                    format!("{};{};{};{}", enc_str(nm), rng.range(0, 5), enc_bool(rng.chance(2, 3)), enc_list("|", &att))
+                })
+                .collect();
+            let t = *rng.pick(&["a", "a::b", "a::b::c", "a::b::c::d", "a::x", "b", "b::a::z", "é::ü::w", "zz", ""]);
+            (ls.join(","), t)
+        } else {
+            ("~".to_owned(), "some::target")
+        };
+        emit(format!(
+            "{}\t{}\t{}\t{}\t{}\t{}\t{}\t{}",
+            nl,
+            rng.range(1, 5),
+            enc_list(",", &attached),
+            apps.join(","),
+            path,
+            hist,
+            loggers,
+            enc_str(target)
+        ));
     }
 }
 
